@@ -57,7 +57,10 @@ def netlist_tree(c):
             d["hard"] = True
         else:
             d["area"] = X.num(m["area"] * u * u)
-        if m["rects"]:
+        if m.get("withdrawn"):
+            # declared with a rectangle that is withdrawn after loading: the module is then a soft module without rectangles again
+            d["rectangles"] = [D.rect_entry(m["withdrawn"][:4], unit)]
+        elif m["rects"]:
             d["rectangles"] = [D.rect_entry(r, unit) for r in m["rects"]]
         else:
             d["center"] = [X.num(m["center"][0] * u / 2), X.num(m["center"][1] * u / 2)]
@@ -73,6 +76,11 @@ def release(nl, c):
     for m in c["modules"]:
         if m.get("released"):
             nl.get_module(m["name"]).is_fixed = False
+        if m.get("withdrawn"):
+            if m["withdrawn"][4]:
+                nl.assign_rectangles({m["name"]: []})
+            else:
+                nl.get_module(m["name"]).clear_rectangles()
 
 
 def dist(a, b):
@@ -221,6 +229,8 @@ def run_alloc(c):
         if abs(Fr(alloc.area("F%d" % k)) - own) > atol:
             raise Violation("area(F%d) = %r, its rectangles have area %s" % (k, alloc.area("F%d" % k), float(own)), "fixed-area")
     cls = ["descriptions-loaded-twice"] if c.get("reuse") else []
+    if any(m.get("withdrawn") for m in c["modules"]):
+        cls.append("rectangles-withdrawn-after-loading")
     if any(m.get("released") for m in c["modules"]):
         cls.append("fixed-module-released-before-the-die-was-built")
     if dc["fixed"]:
@@ -271,6 +281,10 @@ def case_s(draw):
         if kind == "soft-centre":
             m["center"] = [draw(_i(0, 2 * W)), draw(_i(0, 2 * H))]
             m["area"] = draw(_i(1, max(1, W * H)))
+            if draw(_i(0, 3)) == 0:
+                R = draw(L.int_rect(W, H))
+                m["withdrawn"] = R + [draw(st.booleans())]
+                m["center"] = [R[0] + R[2], R[1] + R[3]]  # (the centre the reader derived from the rectangle stays)
         else:
             sh = draw(_i(0, 3))
             if sh == 0:
@@ -297,4 +311,4 @@ def case_s(draw):
 def subchecks():
     return [Sub("designs", run_alloc, strategy=case_s(), n_quick=5000, n_thorough=120000, fuzz_thorough=2500,
                 required=("with-fixed", "refined-split", "refined-grid", "include-zero", "square-from-centre", "hard-module",
-                          "sticks-out", "overlaps-fixed-cell", "covers-a-cell-completely", "tiny-die", "hard-module-recentred-in-place", "descriptions-loaded-twice", "fixed-module-released-before-the-die-was-built"))]
+                          "sticks-out", "overlaps-fixed-cell", "covers-a-cell-completely", "tiny-die", "hard-module-recentred-in-place", "descriptions-loaded-twice", "fixed-module-released-before-the-die-was-built", "rectangles-withdrawn-after-loading"))]
